@@ -81,7 +81,10 @@ impl crate::save::upload::Table for Decomp {
         let mut reader = BufReader::new(file);
         let ref mut buffer = [0u8; 2];
         reader.seek(SeekFrom::Start(19)).expect("seek past header");
-        while reader.read_exact(buffer).is_ok() {
+        loop {
+            reader
+                .read_exact(buffer)
+                .expect("truncated file: missing trailer");
             match u16::from_be_bytes(buffer.clone()) {
                 3 => {
                     reader.read_u32::<BE>().expect("from abstraction");
